@@ -233,6 +233,28 @@ def run_spec_direct(sp):
         if e1.exact_obj(c) != fp:
             return [V(f"Container.dilute | argument-mutated | {feat},named", f"{call} with name='D2' modified its argument", case)], \
                 (expect, 'returned')
+        # ... and the diluted container is a container like any other: diluted again (to half the target), directly and after a
+        # part of it was transferred away, it reaches the new target, judged by the same definition
+        if f < 1 and expect == 'accept' and sp['cap'] == 'inf':
+            cstr2 = C05.conc_str(target / 2, sp['cu'])
+            target2, _, _ = ref.parse_concentration(cstr2)
+            if float(target2) >= 1e3 * 10.0 ** -pp.config.internal_precision:
+                part, _ = pp.Container.transfer(r, pp.Container('sink', 'inf L'), f"{r.volume / 3!r} {pp.config.volume_storage_unit}")
+                for label, start in (('serial', r), ('serial-after-transfer', part)):
+                    try:
+                        r2 = start.dilute(solute, cstr2, solvent)
+                    except Exception as e:  # noqa
+                        return [V(f"Container.dilute | {label} | {feat},raises={type(e).__name__}",
+                                  f"{call}, then .dilute({sp['solute']}, {cstr2!r}, {sp['solvent']}) ({label}) raised "
+                                  f"{type(e).__name__}: {e}", case)], (expect, 'returned')
+                    got2 = ref.conc(pp, r2.contents, solute, num, den)
+                    rel2 = 1e-6 + 10.0 ** -pp.config.internal_precision / float(target2)
+                    why2 = only_solvent_increased(start.contents, r2.contents, solvent)
+                    if why2 or got2 is None or abs(float(got2) - float(target2)) > rel2 * float(target2):
+                        return [V(f"Container.dilute | {label} | {feat}",
+                                  f"{call}, then .dilute({sp['solute']}, {cstr2!r}, {sp['solvent']}) ({label}): concentration "
+                                  f"{float(got2 / mult) if got2 is not None else None!r} {sp['cu']}, requested "
+                                  f"{float(target2 / mult)!r}{'; ' + why2 if why2 else ''}", case)], (expect, 'returned')
         if named.name != 'D2' or r.name != c.name or named.contents != r.contents or named.volume != r.volume or \
                 named.max_volume != r.max_volume or again.contents != r.contents:
             return [V(f"Container.dilute | named-variant | {feat}",
